@@ -1,6 +1,7 @@
 """C09 - Transport containment: peer bytes cause only protocol errors or timeouts."""
 from __future__ import annotations
 
+import asyncio
 import hashlib
 from itertools import product
 
@@ -23,12 +24,14 @@ RULE = ("grammar-aware fault enumeration (full product of per-field alphabets, n
         "type nibble 0..15 x pad nibble x magic x size field x body shape (valid, correctly tagged garbage, correctly signed "
         "inner packet with bad padding, misaligned, filler); plus raw filler of lengths 1..40. Each crafted reply is sent "
         "for every request of the phase and driven through LAN.send, LAN.authenticate, Device._send_command and "
-        "AirConditioner.refresh. Outcome must be frames / ProtocolError family / TimeoutError; device-level calls never raise. "
+        "AirConditioner.refresh; the same alphabets are also injected UNSOLICITED between two exchanges (idle phase) and after the "
+        "handshake. Outcome must be frames / ProtocolError family / TimeoutError; device-level calls never raise. "
         "A case is (protocol, phase, field values, driver); all non-trivial")
 ASSUMPTIONS = ["the crafted reply is repeated for every retransmission", "frames carried by 'valid' bodies are well-formed state reports"]
 IP, PORT = "10.0.0.3", 6444
 CMD = bytes.fromhex("aa21ac8d000000000003418100ff03ff000200000000000000000000000003016971")
 DRIVERS = ["send", "command", "refresh"]
+IDLE_DRIVERS = ["send-idle", "refresh-idle"]
 
 V2_MARKERS = [b"\x5a\x5a", b"\x5a\x5b", b"\x00\x00", b"\x83\x70", b"\xaa\x20"]
 V2_LENGTHS = [0, 1, 5, 6, 39, 40, 55, 56, 57, "n-1", "n", "n+1", 0xFFFF]
@@ -40,7 +43,7 @@ V3_PHASES = ["handshake", "data"]
 V3_PADS = [0, 1, 15]
 V3_MAGIC = [0x20, 0x00, 0xFF]
 V3_SIZES = [0, 1, 31, 32, 33, 48, 64, "actual", "actual-1", "actual+1"]
-V3_BODIES = ["valid", "tagged-garbage", "signed-badpad", "tagged-empty", "misaligned", "filler"]
+V3_BODIES = ["valid", "tagged-garbage", "signed-badpad", "tagged-empty", "misaligned", "filler", "tag-only", "tag-only-1block"]
 
 
 def bounds(tier):
@@ -53,6 +56,8 @@ def shards(tier):
     out = [("v2", m, 0) for m in range(len(V2_MARKERS))]
     out += [("v3", ph, t) for ph in range(2) for t in range(16)]
     out += [("raw", v, 0) for v in (2, 3)]
+    out += [("v3idle", 0, t) for t in range(16)]
+    out += [("v2idle", m, 0) for m in range(len(V2_MARKERS))]
     return out
 
 
@@ -103,6 +108,13 @@ def inner_v2(kind: str) -> bytes:
 
 
 def craft_v3(phase, ptype, pad, magic, size, body, sk, hs_body) -> bytes:
+    if body in ("tag-only", "tag-only-1block"):
+        # no (or one garbage block of) ciphertext and a tag that is valid for the header alone: forgeable without the key
+        cipher = b"" if body == "tag-only" else filler("c09/blk", 16)
+        asz = len(cipher) + 32 - 2
+        asz = {"actual": asz, "actual-1": asz - 1, "actual+1": asz + 1}.get(size, size)
+        hdr = rc.v3_header(asz & 0xFFFF, pad, ptype, magic)
+        return hdr + cipher + hashlib.sha256(hdr).digest()
     if body == "misaligned":
         payload = filler("c09/mis", 33 + 32)
     elif body == "filler":
@@ -130,7 +142,33 @@ def craft_v3(phase, ptype, pad, magic, size, body, sk, hs_body) -> bytes:
     return rc.v3_header(asz & 0xFFFF, pad, ptype, magic) + b"\x00\x00" + payload
 
 
-def make_driver(name: str, w: World, version: int, token, key):
+def make_driver(name: str, w: World, version: int, token, key, idle=None):
+    if name == "send-idle":
+        lan = LAN(IP, PORT, 7)
+
+        async def drive():
+            if version == 3:
+                await lan.authenticate(token, key)
+            first = await lan.send(CMD)
+            idle["inject"]()
+            await asyncio.sleep(0.05)
+            return await lan.send(CMD)
+        return drive
+    if name == "refresh-idle":
+        ac0 = AC(ip=IP, port=PORT, device_id=7)
+
+        async def drive():
+            if version == 3:
+                await ac0.authenticate(token, key)
+            idle["inject_after_auth"]()
+            await asyncio.sleep(0.05)
+            await ac0.refresh()
+            idle["inject"]()
+            await asyncio.sleep(0.05)
+            await ac0.refresh()
+            await ac0.apply()
+            return ac0.online
+        return drive
     if name in ("send", "authenticate"):
         lan = LAN(IP, PORT, 7)
 
@@ -163,9 +201,25 @@ def execute(version: int, phase: str, crafter, driver: str):
     w = World()
     token, key = filler("c09/tok", 64), filler("c09/key", 32)
     sent = []
+    idle = {}
+
+    class _Req:
+        """minimal request view for crafters when bytes are injected without a request"""
+        def __init__(self, conn):
+            self.conn, self.responses, self.kind = conn, [], "data"
+
+    def inject():
+        conn = next((c for c in reversed(w.net.conns) if not c.closing), None)
+        if conn is not None:
+            pkt = crafter(_Req(conn))
+            sent.append(pkt)
+            if pkt:
+                conn.deliver(pkt, 0.01)
+    idle["inject"] = inject
+    idle["inject_after_auth"] = inject if version == 3 else (lambda: None)
 
     def script(req):
-        if version == 2 or req.kind == phase:
+        if phase != "idle" and (version == 2 or req.kind == phase):
             pkt = crafter(req)
             sent.append(pkt)
             if pkt:
@@ -177,7 +231,7 @@ def execute(version: int, phase: str, crafter, driver: str):
     dev = SimDevice(version=version, token=token, key=key, device_id=7, script=script)
     w.net.listen(IP, PORT, dev)
     try:
-        out = w.run(make_driver(driver, w, version, token, key)())
+        out = w.run(make_driver(driver, w, version, token, key, idle)())
         return out, sent, w.loop_errors()
     finally:
         w.close()
@@ -191,7 +245,7 @@ def judge(st: Stats, case, driver, out, loop_errs, desc: str):
     prob = None
     if oc not in ALLOWED:
         prob = f"{driver} raised {oc}"
-    elif driver in ("command", "refresh") and oc != "ok":
+    elif driver in ("command", "refresh", "refresh-idle") and oc != "ok":
         # device-level calls swallow transport failures - except a failing *authenticate* the user called explicitly
         if not (oc == "AuthenticationError" and case.get("phase") == "handshake"):
             prob = f"{driver} raised {oc}"
@@ -238,13 +292,33 @@ def run_shard(shard, tier) -> Stats:
                 st.ev(("v3", a, b, pad, magic, size, body, driver), f"{driver}:{oc}", True,
                       sample=None if (pad, magic, size, body, driver) != (0, 0x20, "actual", "signed-badpad", "send") else
                       {**case, "packet": res[1][0].hex() if res[1] else None})
+    elif kind == "v3idle":
+        ptype = b
+        for pad, magic, size, body in product((0, 15), (0x20, 0x00), ("actual", 0, 33, "actual+1"), V3_BODIES):
+            def crafter(req, pad=pad, magic=magic, size=size, body=body):
+                sk = req.conn.state.get("session_key")
+                return craft_v3("data", ptype, pad, magic, size, body, sk, filler("c09/hs", 64))
+            for driver in IDLE_DRIVERS:
+                case = {"proto": 3, "phase": "idle", "type": ptype, "pad": pad, "magic": magic, "size": size, "body": body, "driver": driver}
+                res = execute(3, "idle", crafter, driver)
+                oc = judge(st, case, driver, res[0], res[2], f"v3 unsolicited between exchanges type={ptype} body={body}")
+                st.ev(("v3idle", b, pad, magic, size, body, driver), f"{driver}:{oc}", True)
+    elif kind == "v2idle":
+        marker = V2_MARKERS[a]
+        for lf, cipher, sig, trunc in product(V2_LENGTHS, V2_CIPHER, V2_SIGS, (None, 6, "n-1")):
+            pkt = craft_v2(marker, lf, cipher, sig, trunc)
+            for driver in IDLE_DRIVERS:
+                case = {"proto": 2, "phase": "idle", "marker": marker.hex(), "length": lf, "cipher": cipher, "sig": sig, "trunc": trunc, "driver": driver}
+                res = execute(2, "idle", lambda req: pkt, driver)
+                oc = judge(st, case, driver, res[0], res[2], f"v2 unsolicited between exchanges cipher={cipher} sig={sig}")
+                st.ev(("v2idle", a, lf, cipher, sig, trunc, driver), f"{driver}:{oc}", True)
     else:
         version = a
         for n in range(1, 41):
             for pat in range(3):
                 raw = [filler(f"c09/raw{n}", n), b"\x83\x70" * (n // 2) + b"\x83" * (n % 2), (b"\x5a\x5a" + filler("c09/r2", 40))[:n]][pat]
-                for phase in (["data"] if version == 2 else V3_PHASES):
-                    for driver in (DRIVERS if phase == "data" else ["authenticate"] + DRIVERS):
+                for phase in (["data", "idle"] if version == 2 else V3_PHASES + ["idle"]):
+                    for driver in (IDLE_DRIVERS if phase == "idle" else DRIVERS if phase == "data" else ["authenticate"] + DRIVERS):
                         case = {"proto": version, "phase": phase, "raw": raw.hex(), "driver": driver}
                         res = execute(version, phase, lambda req: raw, driver)
                         oc = judge(st, case, driver, res[0], res[2], f"v{version} raw phase={phase}")
@@ -260,13 +334,13 @@ def replay(case):
         res = execute(case["proto"], case["phase"], lambda req: raw, case["driver"])
     elif case["proto"] == 2:
         pkt = craft_v2(bytes.fromhex(case["marker"]), case["length"], case["cipher"], case["sig"], case["trunc"])
-        res = execute(2, "data", lambda req: pkt, case["driver"])
+        res = execute(2, case.get("phase", "data"), lambda req: pkt, case["driver"])
     else:
         phase = case["phase"]
 
         def crafter(req):
-            sk = req.conn.state.get("session_key") if phase == "data" else None
+            sk = req.conn.state.get("session_key") if phase in ("data", "idle") else None
             hs = req.responses[0][8:] if (phase == "handshake" and req.responses and len(req.responses[0]) == 72) else filler("c09/hs", 64)
-            return craft_v3(phase, case["type"], case["pad"], case["magic"], case["size"], case["body"], sk, hs)
+            return craft_v3("data" if phase == "idle" else phase, case["type"], case["pad"], case["magic"], case["size"], case["body"], sk, hs)
         res = execute(3, phase, crafter, case["driver"])
     return {"outcome": exc_class(res[0]), "detail": str(res[0][1])[:300], "loop_errors": res[2]}
